@@ -1,6 +1,7 @@
 """C07 — cancelling a booking takes effect and stays in effect, whatever races with it"""
 from tiecommon import TIE_DENY, TIE_TTLCODE, TIE_CHANMAP, TIE_NOTE, TIE_ASSUMPTION
 import re
+import c10
 import vlib
 from relaycommon import RelayMode
 
@@ -181,4 +182,5 @@ class SchedMode(vlib.Mode):
 
 
 def modes(tier):
-    return [SchedMode(), RelayMode("C07")]
+    # the register histories of C10 run here too: "refused until the expiry given in the deny request" is the register's business
+    return [SchedMode(), RelayMode("C07"), c10.DenyMode()]
